@@ -222,10 +222,36 @@ func c13Check(ci interface{}) Verdict {
 		}
 		labels["specified-width"] = true
 	}
-	// columns and spacing
+	// columns and spacing. A column in which no cell originates is only there to be spanned: it gets no
+	// spacing of its own (CSS Tables 3 track merging; the reading the repository documents for its
+	// table width, see the disabled TestLayoutTableAuto49)
+	origin := make([]bool, n)
+	wr.WalkBoxes(table, func(b bo.Box) bool {
+		if bo.TableCellT.IsInstance(b) {
+			if x := b.Box().GridX; x >= 0 && x < n {
+				origin[x] = true
+			}
+			return false
+		}
+		return true
+	})
+	nOrigin := 0
+	for _, o := range origin {
+		if o {
+			nOrigin++
+		} else {
+			labels["column-without-originating-cell"] = true
+		}
+	}
+	sp := func(i int) float64 { // spacing in front of column i
+		if i < n && origin[i] {
+			return hs
+		}
+		return 0
+	}
 	for i := 0; i+1 < n; i++ {
-		if !near(float64(cp[i+1]-cp[i]), float64(cw[i])+hs) {
-			return Viol("columns:positions", "column %d starts at %v and is %v wide, column %d starts at %v: they should be separated by the horizontal border-spacing %v\n%s", i, cp[i], cw[i], i+1, cp[i+1], hs, c.HTML)
+		if !near(float64(cp[i+1]-cp[i]), float64(cw[i])+sp(i+1)) {
+			return Viol("columns:positions", "column %d starts at %v and is %v wide, column %d starts at %v: they should be separated by the horizontal border-spacing %v\n%s", i, cp[i], cw[i], i+1, cp[i+1], sp(i+1), c.HTML)
 		}
 	}
 	if n > 0 {
@@ -233,35 +259,15 @@ func c13Check(ci interface{}) Verdict {
 		for _, w := range cw {
 			sum += float64(w)
 		}
-		want := sum + float64(n+1)*hs
+		want := sum + float64(nOrigin+1)*hs
 		if !near(f(table.Width), want) {
 			cls := "separate"
 			if collapse {
 				cls = "collapse"
 			}
-			// columns in which no cell originates (they are only covered by spanning cells)
-			origin := make([]bool, n)
-			wr.WalkBoxes(table, func(b bo.Box) bool {
-				if bo.TableCellT.IsInstance(b) {
-					if x := b.Box().GridX; x >= 0 && x < n {
-						origin[x] = true
-					}
-					return false
-				}
-				return true
-			})
-			empty := 0
-			for _, o := range origin {
-				if !o {
-					empty++
-				}
-			}
-			if empty > 0 && near(f(table.Width), want-float64(empty)*hs) {
-				cls += ":spacing-of-columns-without-originating-cell"
-			}
-			return Viol("table-width:"+cls, "columns %v + %d x spacing %v = %v, but the table's used width is %v\n%s", cw, n+1, hs, want, f(table.Width), c.HTML)
+			return Viol("table-width:"+cls, "columns %v + %d x spacing %v = %v, but the table's used width is %v\n%s", cw, nOrigin+1, hs, want, f(table.Width), c.HTML)
 		}
-		if !near(float64(cp[0]), float64(table.ContentBoxX())+hs) {
+		if !near(float64(cp[0]), float64(table.ContentBoxX())+sp(0)) {
 			return Viol("columns:first-position", "the first column starts at %v, the table content box at %v, horizontal spacing %v\n%s", cp[0], table.ContentBoxX(), hs, c.HTML)
 		}
 	}
@@ -305,9 +311,12 @@ func c13Check(ci interface{}) Verdict {
 				if !near(ci.l, float64(cp[ci.x])) {
 					return Viol("cell:left-edge", "%s: border box starts at x=%v, its column at %v\n%s", name, ci.l, cp[ci.x], c.HTML)
 				}
-				wantW := float64(ci.cs-1) * hs
+				wantW := 0.0
 				for k := ci.x; k < ci.x+ci.cs; k++ {
 					wantW += float64(cw[k])
+					if k > ci.x {
+						wantW += sp(k)
+					}
 				}
 				if f(cb.Width) == 0 && ci.r-ci.l > wantW {
 					// the borders and padding alone are wider than the columns: the cell cannot fit its slots
